@@ -87,6 +87,15 @@ LimitFamily == \A c \in {R(1), Frac(1, 2), Frac(1, 100)} :
        /\ GainN(k, sa, sy) = <<<<Inv(d)>>, <<R(0)>>>>
        /\ Avk(k, sa, sy) = <<<<Inv(d), R(0)>>, <<R(0), R(0)>>>>
 
+\* ... and an OVER-determined family (two measurements of one state, K of full column rank) with noise c on both:
+\*   K = (1 1)^T, Sa = (1), Sy = c I:   S = c/(2+c),  G = (1/(2+c), 1/(2+c)),  A = 2/(2+c)  -> 1 for vanishing noise
+LimitFamilyOver == \A c \in {R(1), Frac(1, 2), Frac(1, 100)} :
+    LET k == <<<<R(1)>>, <<R(1)>>>>  sa == Id(1)  sy == <<<<c, R(0)>>, <<R(0), c>>>>  d == Add(R(2), c)
+    IN /\ Post(k, sa, sy) = <<<<Div(c, d)>>>>
+       /\ GainN(k, sa, sy) = <<<<Inv(d), Inv(d)>>>>
+       /\ GainM(k, sa, sy) = <<<<Inv(d), Inv(d)>>>>
+       /\ Avk(k, sa, sy) = <<<<Div(R(2), d)>>>>
+
 Emit == LET k == IntM(K)  sa == IntM(Sa)  sy == IntM(Sy)
             S == Post(k, sa, sy)  G == MM(MM(S, Tr(k)), MInv(sy))  A == MM(G, k)
         IN PrintT(<<"CASE", ToJson([K |-> K, Sa |-> Sa, Sy |-> Sy, S |-> S, G |-> G, A |-> A,
